@@ -410,7 +410,11 @@ func (c Check[C]) Run(t *testing.T) {
 		}
 		err := guard(func() error { return c.Oracle(cs) })
 		if c.Obs != nil {
-			st.observe(c.Obs(cs))
+			// classifying a case may run library code too (is there a merge? a tie?): a panic
+			// there is the library's, and must not hide a verdict the oracle already reached
+			if oerr := guard(func() error { st.observe(c.Obs(cs)); return nil }); oerr != nil && err == nil {
+				err = fmt.Errorf("while classifying the case: %v", oerr)
+			}
 		} else {
 			st.observe(Obs{Nontrivial: true, Sample: cs})
 		}
